@@ -93,3 +93,67 @@ Proof.
   cbn [bind fold_res]. unfold set_cable_attrs. cbn [ed_cables set_cables].
   rewrite nth_upd_last. reflexivity.
 Qed.
+
+(* ---------- the skeleton of a written module (for every netlist value) ---------- *)
+Lemma wmap_Forall2 {A B} (f : A -> wres B) l l' : wmap f l = WOk l' -> Forall2 (fun x y => f x = WOk y) l l'.
+Proof.
+  revert l'. induction l as [|x l IH]; simpl; intros l' H.
+  - inversion H. constructor.
+  - destruct (f x) as [y| |] eqn:F; simpl in H; try discriminate.
+    destruct (wmap f l) as [ys| |] eqn:W; simpl in H; try discriminate.
+    inversion H; subst. constructor; [exact F|]. now apply IH.
+Qed.
+
+(* _write_module: name, `celldefine flag, parameters and attributes are those of the definition; the header has one
+   entry per port, in port order, each written by _write_module_header_port; a primitive has port declarations only *)
+Lemma emit_module_skeleton o n dd m :
+  emit_module o n dd = WOk m ->
+  vm_name m = nd_name dd /\ vm_cell m = is_prim dd /\ vm_params m = nd_params dd /\ vm_attrs m = nd_attrs dd /\
+  Forall2 (fun p h => emit_header_port dd p = WOk h) (nd_ports dd) (vm_header m) /\
+  (is_prim dd = true -> emit_body_ports dd (nd_ports dd) [] = WOk (vm_body m)).
+Proof.
+  unfold emit_module.
+  destruct (negb (def_value_ok dd)); [discriminate|]. destruct (negb (def_names_ok dd)); [discriminate|].
+  destruct (wmap (emit_header_port dd) (nd_ports dd)) as [hd| |] eqn:H; try discriminate.
+  cbn [wbind]. destruct (emit_body_ports dd (nd_ports dd) []) as [ps| |] eqn:P; try discriminate.
+  cbn [wbind]. destruct (is_prim dd) eqn:IP.
+  - cbn [wbind]. intro E. inversion E; subst; simpl. repeat split; try reflexivity. now apply wmap_Forall2.
+  - destruct (wmap emit_cable (rev (nd_cables dd))) as [cs| |]; try discriminate. cbn [wbind].
+    destruct (wmap (emit_assign dd) (nd_assigns dd)) as [asg| |]; try discriminate. cbn [wbind].
+    destruct (wmap (emit_inst o n dd) (nd_insts dd)) as [ins| |]; try discriminate. cbn [wbind].
+    intro E. inversion E; subst; simpl. repeat split; try reflexivity; [now apply wmap_Forall2|discriminate].
+Qed.
+
+(* the header of a module of the class `writable` is the list of its port names *)
+Lemma writable_header o n dd m :
+  forallb (port_plain dd) (nd_ports dd) = true -> emit_module o n dd = WOk m ->
+  Forall2 (fun p h => exists nm, np_label p = LName nm /\ h = HPort None None nm) (nd_ports dd) (vm_header m).
+Proof.
+  intros Hp He. destruct (emit_module_skeleton _ _ _ _ He) as [_ [_ [_ [_ [Hh _]]]]].
+  rewrite forallb_forall in Hp.
+  revert Hp Hh. generalize (vm_header m). induction (nd_ports dd) as [|p ps IH]; intros hs Hp Hh.
+  - inversion Hh. constructor.
+  - inversion Hh as [|? h ? hs' E1 E2]; subst. constructor.
+    + destruct (header_plain dd p (Hp p (or_introl eq_refl))) as [nm [L Eh]]. exists nm. split; [exact L|].
+      rewrite Eh in E1. now inversion E1.
+    + apply IH; [intros x Hx; apply Hp; now right|exact E2].
+Qed.
+
+(* _compose: the document is the list of the written modules in the order of the _write_module calls (breadth first
+   from the top, then library order), each module written from the definition of that name *)
+Definition written_order (o : vopts) (n : nv) : list str :=
+  filter (fun x => match find_ndef n x with Some d => is_written o d | None => true end) (module_order n).
+
+Lemma emit_document o n d :
+  emit o n = WOk d ->
+  Forall2 (fun x m => exists dd, find_ndef n x = Some dd /\ emit_module o n dd = WOk m /\ vm_name m = x)
+          (written_order o n) d.
+Proof.
+  unfold emit. destruct (negb (nodup_names (map nd_name (nv_defs n)))); [discriminate|].
+  intro H. apply wmap_Forall2 in H. fold (written_order o n) in H.
+  induction H as [|x m xs ms Hx _ IH]; constructor; [|exact IH].
+  destruct (find_ndef n x) as [dd|] eqn:F; [|discriminate].
+  exists dd. split; [reflexivity|]. split; [exact Hx|].
+  destruct (emit_module_skeleton _ _ _ _ Hx) as [Hn _]. rewrite Hn.
+  unfold find_ndef in F. apply find_some in F as [_ F]. now apply str_eqb_spec in F.
+Qed.
